@@ -13,7 +13,9 @@ import scipy as _sp
 import z3
 
 from . import core as C
-from .core import Q, Qc, B
+from .core import Q, Qc, B, Z, F64
+
+_SYM = (Q, Qc, B, Z, F64)
 
 
 class State:
@@ -76,13 +78,13 @@ def _elementwise(a, f):
 
 def has_sym(x):
     """True if x is / contains a symbolic scalar."""
-    if isinstance(x, (Q, Qc, B)):
+    if isinstance(x, _SYM):
         return True
     if isinstance(x, _np.ndarray):
         if x.dtype != object:
             return False
         for v in x.flat:
-            if isinstance(v, (Q, Qc, B)):
+            if isinstance(v, _SYM):
                 return True
         return False
     if isinstance(x, (list, tuple)):
